@@ -209,8 +209,10 @@ def rand_sched(rng, nthreads, length, style=None):
 
 def take_params(tok, a):
     """(discarded by the consumer itself, leaving the chunk iterator) for a consumption token `all` | `<k>` | `nth:<k>`"""
-    if tok == "all":
+    if tok in ("all", "fold"):
         return 0, a
+    if tok == "count":
+        return a, a
     if tok.startswith("nth:"):
         k = int(tok[4:])
         return min(k, a), min(k + 1, a)
@@ -221,6 +223,8 @@ def rand_take(rng, n):
     r = rng.random()
     if r < 0.15:
         return "nth:%d" % rng.randint(0, n + 1)
+    if r < 0.27:
+        return rng.choice(["fold", "count"])
     return rng.choice(["all", "all", "0", "1", str(rng.randint(0, n + 1))])
 
 
